@@ -1,9 +1,44 @@
 import PyamgV.Driver.Util
-/-! Driver ops for property C07 (line protocol). Op names are prefixed `c07_`. -/
+import PyamgV.Model.C07Krylov
+import PyamgV.Model.C07Argmin
+/-! Driver ops for property C07 (line protocol). Op names are prefixed `c07_`.
+
+`c07_iter <solver> <r|c> <A> <M> <b> <x0> <k>` (matrices: rows separated by `;`)
+  → `<m> <x_1;…;x_m>`  the iterates of the recurrence model (`m ≤ k`: it stops before a division by 0)
+`c07_krylov_argmin <kind> <r|c> <A> <M> <b> <x0> <k>`   kind ∈ cg | gmres | res | cgnr | cgne
+  → `<cert 0|1> <xs> <y_1;…;y_k> <val_0,…,val_k>` | `singular` | `bad-kind`
+  the exact minimisers over the j-dimensional Krylov spaces, `cert` = the Galerkin conditions hold exactly -/
 namespace PyamgV.Drv.C07
-open PyamgV PyamgV.Drv
+open PyamgV PyamgV.Drv PyamgV.C07
+
+def parseMatC (s : String) : List (List CRat) :=
+  if s = "-" then [] else (s.splitOn ";").map (fun r => (parseCRats r).toList)
+def parseMatR (s : String) : List (List Rat) :=
+  if s = "-" then [] else (s.splitOn ";").map (fun r => (parseRats r).toList)
+
+def showVecs {K : Type} (sh : Array K → String) (l : List (List K)) : String :=
+  if l.isEmpty then "-" else String.intercalate ";" (l.map fun v => sh v.toArray)
 
 def handle : List String → Option String
+  | ["c07_iter", name, fld, a, m, b, x0, k] =>
+    if fld = "c" then
+      match runByName CRat.conj name (parseMatC a) (parseMatC m) (parseCRats b).toList (parseCRats x0).toList (nat k) with
+      | none => some "bad-solver"
+      | some xs => some s!"{xs.length} {showVecs showCRats xs}"
+    else
+      match runByName (fun (q : Rat) => q) name (parseMatR a) (parseMatR m) (parseRats b).toList (parseRats x0).toList (nat k) with
+      | none => some "bad-solver"
+      | some xs => some s!"{xs.length} {showVecs showRats xs}"
+  | ["c07_krylov_argmin", kind, fld, a, m, b, x0, k] =>
+    if !(["cg", "gmres", "res", "cgnr", "cgne"].contains kind) then some "bad-kind" else
+    if fld = "c" then
+      match krylovArgmin CRat.conj kind (parseMatC a) (parseMatC m) (1 : CRat) (parseCRats b).toList (parseCRats x0).toList (nat k) with
+      | none => some "singular"
+      | some r => some s!"{if r.cert then 1 else 0} {showCRats r.xs.toArray} {showVecs showCRats r.ys} {showCRats r.vals.toArray}"
+    else
+      match krylovArgmin (fun (q : Rat) => q) kind (parseMatR a) (parseMatR m) (1 : Rat) (parseRats b).toList (parseRats x0).toList (nat k) with
+      | none => some "singular"
+      | some r => some s!"{if r.cert then 1 else 0} {showRats r.xs.toArray} {showVecs showRats r.ys} {showRats r.vals.toArray}"
   | _ => none
 
 end PyamgV.Drv.C07
